@@ -1,4 +1,5 @@
 import Driver.OpsBits
+import Driver.OpsScale
 import Driver.OpsTemplate
 import Driver.OpsIeee
 import Driver.OpsCodec
@@ -14,6 +15,7 @@ open Bufr Drv
 
 structure St where
   bits : BitsSt := {}
+  scale : ScaleSt := {}
   tm : TmplSt := {}
   ieee : IeeeSt := {}
   codec : CodecSt := {}
@@ -37,6 +39,9 @@ def step (st : St) (line : String) : St × String :=
   | none =>
   match stepFrame st.frame toks with
   | some (s, o) => ({ st with frame := s }, o)
+  | none =>
+  match stepScale st.scale toks with
+  | some (s, o) => ({ st with scale := s }, o)
   | none => (st, "bad-op")
 
 partial def loop (h : IO.FS.Stream) (out : IO.FS.Stream) (st : St) : IO Unit := do
